@@ -100,6 +100,12 @@ type Net struct {
 	BufferSize int
 	// DialLatency delays connection establishment.
 	DialLatency time.Duration
+	// GateOnClose makes Conn.Close pass a scheduler gate first, so that other
+	// goroutines may run between whatever the caller did before closing (e.g.
+	// releasing a connection slot) and the socket really being closed. Only
+	// for harnesses that never close connections while a real (uninstrumented)
+	// mutex is held, e.g. never call http.Server.Close inside a run.
+	GateOnClose bool
 	down        map[string]bool
 }
 
@@ -549,6 +555,9 @@ func (c *Conn) CloseWrite() error {
 // Close closes this end: queued data is still delivered, then the peer reads
 // EOF; the peer's writes fail from now on.
 func (c *Conn) Close() error {
+	if c.net != nil && c.net.GateOnClose {
+		sim.Yield(sim.GateNet, "net.close")
+	}
 	c.mu.Lock()
 	if c.closed {
 		c.mu.Unlock()
